@@ -152,3 +152,15 @@ Fixpoint interim_heads_f (fuel : nat) (meth : bytes) (bufsize : nat) (s : bytes)
           else []
       end
   end.
+
+Fixpoint heads_fit_f (fuel : nat) (meth : bytes) (bufsize lim : nat) (s : bytes) : bool :=
+  match fuel with
+  | O => true
+  | S f =>
+      match read_response_head_f meth bufsize s with
+      | inl _ => true
+      | inr (r, rest) =>
+          (length s - length rest <=? lim) &&
+          (if is_1xx_nonterminal (r_code r) then heads_fit_f f meth bufsize lim rest else true)
+      end
+  end.
